@@ -25,10 +25,24 @@ LEVEL_TEXT = ("Lean 4 theorems over R (Mathlib HasDerivAt / Real.sqrt / Complex.
               "duplicated models of bearing_distance and of the numbering of unknowns (C06, C08, C18); "
               "the same generated definitions are executed at Float next to the real LocalLinearization visitor "
               "(correspondence) and the implementation's coefficients are compared with finite differences of its "
-              "own right-hand side (oracle).")
+              "own right-hand side (oracle). Rounds 4-9: the headline holds for what project_equations() ITSELF hands to the "
+              "solvers (C05_pe_design_matrix_is_jacobian, Props/C05ProjectEquations.lean via extra.py: projectEquations net = "
+              ".ok (np,u) and a row outside the cut => sparse row summed in the column index_*() of an adjusted unknown = the "
+              "partial derivative, 0 elsewhere, np.rhs = misclosure; dense form C01_pe_matrix_is_jacobian under NoAlias); "
+              "whole-pass totality as an iff (C05_pass_total_iff: a pass returns for some fuel iff no S_Distance / Z_Angle "
+              "throws, every start state; C05_design_matrix_exists_and_is_jacobian); clause 6 exact: excluded set = "
+              "d < 1e-6, singular set = d = 0, and NEGATIVE theorems C05_cut_excludes_nonsingular(_direction/_azimuth/_angle) "
+              "- inside the cut the pushed coefficients are not the derivatives (one witness per type); hx/hy of the "
+              "geographic azimuth theorem derived from the input-stage model (C05_azimuth_rhs_geographic_from_input; "
+              "FileCoords = definition of the file format and ReadsInternal = hand-over Input.Net -> Lin.Net stay hypotheses).")
 LEVEL_NOTE = ("Theorems are about real arithmetic and the real functions sin/cos/atan2/acos/sqrt, M_PI is read as pi; "
               "IEEE rounding and libm are not modelled (observed by the Float correspondence, tolerance 1e-12 rel.). "
-              "The C++ while-loops are modelled with fuel (non-termination = error value); termination is proved over R only.")
+              "The C++ while-loops are modelled with fuel (non-termination = error value); termination is proved over R only "
+              "(also inside the cut: C05_wrap_classes_total; LinErr.fuel is an artefact of the model). Finding "
+              "C05-cut-wider-than-singular is KNOWN (not fixed): for 0 < d < 1e-6 m bearing_distance zeroes bearing and distance, "
+              "Distance pushes the row of bearing 0, the angular types +-inf/NaN at double (corpus/C05/lin-r4-cut-witness.txt); the "
+              "Float behaviour (KF 0) is observed by the correspondence, not proved. The network-level theorem is R-only: no closed "
+              "PE.Net R instance (non-vacuity in two halves: Q evaluation of projectEquations, a regular pass over R).")
 TECHNIQUE = "Lean 4 proof against a translator-generated model + model/implementation correspondence + finite-difference oracle"
 TRUSTED = ["tools/gen/c05_linearization.py (C++ mini front end: tokenizer, macro expansion, expression/statement parser)",
            "tools/gen/c05_xnorth.py (PointData::xNorthAngle, handedness predicates, consistent()), "
@@ -38,7 +52,11 @@ TRUSTED = ["tools/gen/c05_linearization.py (C++ mini front end: tokenizer, macro
            "index-on-first-use (Gama/Model/LinTypes.lean), the pass over the observation list and the assembled "
            "matrix (Gama/Model/LinPass.lean: passFrom, rowSum, denseRow), tied by correspondence",
            "the geographic reading of the axes codes (CS.xDir / CS.yDir / Dir.az in Gama/Lemmas/LinXNorth.lean) is a "
-           "specification, checked end to end by azimuths generated from geographic azimuths"]
+           "specification, checked end to end by azimuths generated from geographic azimuths",
+           "Gama/Model/Input.lean (C07's hand model of axes-xy / angles, consistent, y_sign, remove_inconsistency: used by "
+           "Props/C05Input.lean; its consistent / y_sign are proved equal to the regenerated Gen/XNorth ones) and "
+           "Gama/Model/ProjectEquations.lean (hand composition of the regenerated pass, numbering, min_x_, cluster walk; "
+           "stream pe, tools/gen/pe_stream.py, registered in tools/props/extra.py)"]
 MODELLED = ["IEEE-754 rounding (proofs over R)", "libm sin/cos/atan2/acos/sqrt (real functions in the theorems)",
             "M_PI read as the real number pi", "termination of the wrap loops at double (fuel in the model)",
             "StandPoint::orientation() throwing when no orientation is set (precondition: set)",
